@@ -95,7 +95,7 @@ def drvC20stream4 (st : Option (Nat × Bool × Bool × Array Lpddr4Stream.Cycle)
   match st, xs with
   | none, [n, ext, m] => (some (n, n2b ext, n2b m, #[]), "cfg")
   | some (n, ext, _, tr), [999999] =>
-    match Lpddr4Stream.check n tr with
+    match Lpddr4Stream.check n tr ext with
     | none => (st, "ok")
     | some (g, r, ch) => (st, s!"bad {g} {r} {if ch then "chain" else "plain"}")
   | some (n, ext, m, tr), xs =>
